@@ -656,4 +656,116 @@ def VersionedS : List Conf → List CSOp → Prop
       VersionedS (c :: seen) ops
   | seen, _ :: ops => VersionedS seen ops
 
+/-! ## Where `UpdateTime` comes from: backend → `backendpb.ProfileStorage.Profiles` → `profiledb`
+
+The version stamp that `custom.Filters` compares is not part of the backend's message: it is put on
+every delivered profile by `ProfileStorage.Profiles` (`profile.toInternal(ctx, time.Now(), …)`), kept
+by `profiledb.Default` until the profile is delivered again, written to the cache file by every full
+synchronisation and read back after a restart.  `Sync` is that pipeline with the custom-filter
+storage of the running process at its end. -/
+
+/-- A profile at the backend: its current custom rules and the backend time of its last change. -/
+structure BProf where
+  id : String
+  rules : List String
+  changed : Int
+deriving DecidableEq, Repr
+
+/-- How `Profiles` stamps a delivered profile: a function of the local time of the call and of the
+sync time of the request (`0`, the zero time, for a full synchronisation).  The code: `time.Now()`. -/
+abbrev Stamp := Int → Int → Int
+
+/-- `time.Now()`. -/
+def stampNow : Stamp := fun now _ => now
+
+/-- The stamps that keep the property: a later call stamps strictly later, whatever was requested. -/
+def StrictStamp (stamp : Stamp) : Prop :=
+  ∀ now now' req req', now < now' → stamp now req < stamp now' req'
+
+structure Sync where
+  /-- backend: at most one entry per profile ID is looked at (the first) -/
+  backend : List BProf
+  /-- backend clock: the `sync_time` trailer of the latest response, the time of the latest change -/
+  btime : Int
+  /-- local clock: the time of the latest `Profiles` call -/
+  now : Int
+  /-- `profiledb.Default.profiles`, the custom part of the filter configuration -/
+  db : Tbl String Conf
+  /-- `profiledb.Default.syncTime` -/
+  syncTime : Int
+  /-- the cache file, written by every successful full synchronisation -/
+  file : Tbl String Conf
+  fileSync : Int
+  /-- `custom.Filters` of the running process -/
+  cache : CU
+
+def Sync.init : Sync :=
+  { backend := [], btime := 1, now := 1, db := Tbl.empty, syncTime := 0, file := Tbl.empty, fileSync := 0,
+    cache := Tbl.empty }
+
+inductive YOp where
+  /-- the user edits the custom rules of a profile, `dt + 1` backend ticks after the previous event -/
+  | change (id : String) (rules : List String) (dt : Nat)
+  /-- a successful `profiledb.Default.Refresh`, `dt + 1` local ticks after the previous one -/
+  | sync (full : Bool) (dt : Nat)
+  /-- the process restarts: `profiledb` from the cache file, a new (empty) filter storage -/
+  | restart
+  /-- a request of a device of the profile: `db` lookup, `ForConfig`, `custom.Filters.Get` -/
+  | query (id : String)
+  /-- LRU eviction from the custom-filter cache -/
+  | evict (id : String)
+
+/-- `DNSProfile.toInternal`: the custom filter is enabled exactly when there are rules. -/
+def confOf (p : BProf) (upd : Int) : Conf := { id := p.id, upd := upd, rules := p.rules, enabled := !p.rules.isEmpty }
+
+/-- What a `GetDNSProfiles` call with the request sync time `req` delivers. -/
+def delivered (backend : List BProf) (full : Bool) (req : Int) (id : String) : Option BProf :=
+  backend.find? (fun p => p.id == id && (full || decide (req < p.changed)))
+
+def Sync.step (stamp : Stamp) (s : Sync) : YOp → Sync × Option (List String)
+  | .change id rules dt =>
+    ({ s with backend := ⟨id, rules, s.btime + dt + 1⟩ :: s.backend.filter (fun p => p.id != id),
+              btime := s.btime + dt + 1 }, none)
+  | .sync full dt =>
+    let req := if full then 0 else s.syncTime
+    let now' := s.now + dt + 1
+    let db' : Tbl String Conf := fun id =>
+      match delivered s.backend full req id with
+      | some p => some (confOf p (stamp now' req))
+      | none => if full then none else s.db id
+    ({ s with now := now', btime := s.btime + 1, db := db', syncTime := s.btime + 1,
+              file := if full then db' else s.file, fileSync := if full then s.btime + 1 else s.fileSync }, none)
+  | .restart => ({ s with db := s.file, syncTime := s.fileSync, cache := Tbl.empty }, none)
+  | .query id =>
+    match s.db id with
+    | some c => ({ s with cache := (s.cache.step (.get c)).1 }, (s.cache.step (.get c)).2)
+    | none => (s, none)
+  | .evict id => ({ s with cache := s.cache.del id }, none)
+
+def Sync.final (stamp : Stamp) : Sync → List YOp → Sync
+  | s, [] => s
+  | s, op :: ops => Sync.final stamp (s.step stamp op).1 ops
+
+def Sync.run (stamp : Stamp) : Sync → List YOp → List (Option (List String))
+  | _, [] => []
+  | s, op :: ops => (s.step stamp op).2 :: Sync.run stamp (s.step stamp op).1 ops
+
+/-- The answer without a custom-filter cache: the rules `profiledb` holds for the profile now. -/
+def Sync.fresh (s : Sync) (id : String) : Option (List String) :=
+  match s.db id with
+  | some c => cuFresh (.get c)
+  | none => none
+
+/-- The same history with the cache emptied before every request (the uncached twin). -/
+def Sync.runFresh (stamp : Stamp) : Sync → List YOp → List (Option (List String))
+  | _, [] => []
+  | s, .query id :: ops => s.fresh id :: Sync.runFresh stamp (s.step stamp (.query id)).1 ops
+  | s, op :: ops => none :: Sync.runFresh stamp (s.step stamp op).1 ops
+
+/-- The rules the backend has for a profile (what a full synchronisation must put in force). -/
+def backendRules (backend : List BProf) (id : String) : Option (List String) :=
+  match backend.find? (fun p => p.id == id) with
+  | some p => if p.rules.isEmpty then none else some p.rules
+  | none => none
+
 end Agd.ResultCache
